@@ -13,6 +13,8 @@ import (
 	"encoding/json"
 	"fmt"
 	"os"
+	"os/exec"
+	"path/filepath"
 	"runtime"
 	"runtime/debug"
 	"sort"
@@ -51,6 +53,10 @@ type Outcome struct {
 	Decisions []string `json:"-"`
 	// Evals counts the executions this outcome stands for (enumeration).
 	Evals int `json:"evals,omitempty"`
+	// Alt: further violations of the same property seen in the same run (the
+	// race detector can report several pairs of accesses in one run, and which
+	// of them it still reports depends on what the process has reported before).
+	Alt []Violation `json:"alt,omitempty"`
 }
 
 // Engine is implemented once per engine package.
@@ -232,6 +238,17 @@ func Main(name string, eng Engine) error {
 		}
 		pj, _ := json.Marshal(plan)
 		fmt.Println(string(pj))
+	case "execplan":
+		// one plan from a file, the outcome to a file (isolated re-execution)
+		var b []byte
+		if b, err = os.ReadFile(os.Getenv("VERIF_PLAN")); err == nil {
+			var plan any
+			if plan, err = eng.Decode(b); err == nil {
+				o := eng.Execute(plan, prop)
+				ob, _ := json.Marshal(wireOutcome{o, o.Decisions})
+				return os.WriteFile(out, ob, 0o644)
+			}
+		}
 	case "", "search":
 		doSearch(eng, res, name, prop, tier, variant)
 	default:
@@ -317,7 +334,61 @@ func guarded(eng Engine, plan any, prop string, what string) Outcome {
 	return eng.Execute(plan, prop)
 }
 
-func sameKey(o Outcome, key string) bool { return o.Violation != nil && o.Violation.Key == key }
+func sameKey(o Outcome, key string) bool { return pick(&o, key) }
+
+// pick reports whether the run showed the violation named key; if it is one of
+// the alternates it becomes the outcome's violation.
+func pick(o *Outcome, key string) bool {
+	if o.Violation == nil {
+		return false
+	}
+	if o.Violation.Key == key {
+		return true
+	}
+	for i := range o.Alt {
+		if o.Alt[i].Key == key {
+			v := o.Alt[i]
+			o.Alt[i] = *o.Violation
+			o.Violation = &v
+			return true
+		}
+	}
+	return false
+}
+
+// wireOutcome carries an outcome between processes (mode execplan).
+type wireOutcome struct {
+	Outcome
+	Decisions []string `json:"decisions"`
+}
+
+// isolated executes the plan in a fresh process of the same binary.
+func isolated(eng Engine, plan any, prop string) Outcome {
+	dir, err := os.MkdirTemp("", "verif-iso-")
+	if err != nil {
+		return Outcome{Inconcl: true, Note: "isolated run: " + err.Error()}
+	}
+	defer os.RemoveAll(dir)
+	pj, _ := json.Marshal(plan)
+	pf, of := filepath.Join(dir, "plan.json"), filepath.Join(dir, "out.json")
+	if err := os.WriteFile(pf, pj, 0o644); err != nil {
+		return Outcome{Inconcl: true, Note: "isolated run: " + err.Error()}
+	}
+	cmd := exec.Command(os.Args[0], "-test.run", "^TestEngine$", "-test.count", "1", "-test.timeout", "0")
+	cmd.Env = append(os.Environ(), "VERIF_MODE=execplan", "VERIF_PROP="+prop, "VERIF_PLAN="+pf, "VERIF_OUT="+of,
+		"GORACE=log_path="+filepath.Join(dir, "r")+" halt_on_error=0")
+	_ = cmd.Run() // a run with race reports ends as a failed test; the verdict is in the file
+	b, err := os.ReadFile(of)
+	if err != nil {
+		return Outcome{Inconcl: true, Note: "isolated run left no result"}
+	}
+	var w wireOutcome
+	if err := json.Unmarshal(b, &w); err != nil {
+		return Outcome{Inconcl: true, Note: "isolated run: " + err.Error()}
+	}
+	w.Outcome.Decisions = w.Decisions
+	return w.Outcome
+}
 
 func doSearch(eng Engine, res *Result, name, prop, tier, variant string) {
 	base := envU64("VERIF_SEED", 1)
@@ -428,10 +499,14 @@ func doSearch(eng Engine, res *Result, name, prop, tier, variant string) {
 func shrink(eng Engine, plan any, o Outcome, prop string, budget time.Duration) (any, Outcome, bool) {
 	key := o.Violation.Key
 	deadline := time.Now().Add(budget)
+	run := func(p any) Outcome { return eng.Execute(p, prop) }
+	if raceBuild {
+		run = func(p any) Outcome { return isolated(eng, p, prop) }
+	}
 	shrunk := false
 	// normalise through JSON first
 	if p2, ok := roundTrip(eng, plan); ok {
-		if o2 := eng.Execute(p2, prop); sameKey(o2, key) {
+		if o2 := run(p2); pick(&o2, key) {
 			plan, o = p2, o2
 		} else {
 			return plan, o, false
@@ -441,7 +516,7 @@ func shrink(eng Engine, plan any, o Outcome, prop string, budget time.Duration) 
 	if canResched && len(o.Decisions) > 0 {
 		// pin the schedule of the failing run into the plan
 		if p2, ok := roundTrip(eng, rs.WithSchedule(plan, o.Decisions)); ok {
-			if o2 := eng.Execute(p2, prop); sameKey(o2, key) {
+			if o2 := run(p2); pick(&o2, key) {
 				plan, o, shrunk = p2, o2, true
 			}
 		}
@@ -453,7 +528,7 @@ func shrink(eng Engine, plan any, o Outcome, prop string, budget time.Duration) 
 			for n := rs.ScheduleLen(plan) / 2; n >= 0 && time.Now().Before(deadline); n /= 2 {
 				c2, ok := roundTrip(eng, rs.WithSchedule(plan, o.Decisions[:min(n, len(o.Decisions))]))
 				if ok {
-					if oc := eng.Execute(c2, prop); sameKey(oc, key) {
+					if oc := run(c2); pick(&oc, key) {
 						plan, o, progress, shrunk = c2, oc, true, true
 						break
 					}
@@ -471,12 +546,12 @@ func shrink(eng Engine, plan any, o Outcome, prop string, budget time.Duration) 
 			if !ok {
 				continue
 			}
-			if oc := eng.Execute(c2, prop); sameKey(oc, key) {
+			if oc := run(c2); pick(&oc, key) {
 				plan, o, progress, shrunk = c2, oc, true, true
 				if canResched && rs.ScheduleLen(plan) > 0 && len(oc.Decisions) > 0 {
 					// re-pin: drop recorded decisions that no longer exist in the smaller plan
 					if p3, ok := roundTrip(eng, rs.WithSchedule(plan, oc.Decisions)); ok {
-						if o3 := eng.Execute(p3, prop); sameKey(o3, key) {
+						if o3 := run(p3); pick(&o3, key) {
 							plan, o = p3, o3
 						}
 					}
@@ -520,7 +595,7 @@ func doReplay(eng Engine, res *Result, prop string) error {
 	}
 	o := eng.Execute(plan, prop)
 	res.Runs = 1
-	ok := o.Violation != nil && o.Violation.Key == rp.Key && o.LogHash == rp.LogHash
+	ok := pick(&o, rp.Key) && o.LogHash == rp.LogHash
 	res.ReplayOK = &ok
 	if o.Violation != nil {
 		pj, _ := json.Marshal(plan)
